@@ -67,7 +67,7 @@ static int nops, serial_only; static atomic_int expected;
 static void *client(void *a){ int me=(int)(intptr_t)a; dispatch_group_t g=dispatch_group_create();
   for (int i=0;i<nops;i++){ int q = serial_only? 0 : (int)(rnd()%NQ); int k = (int)(rnd()%12); if (k==7 && rnd()%8) k=0;
     if (k==6){ dispatch_suspend(Q[q]); if (rnd()%2) sched_yield(); dispatch_resume(Q[q]); continue; }
-    if (k==7){ for (int j=0;j<70;j++) dispatch_suspend(Q[q]); for (int j=0;j<70;j++) dispatch_resume(Q[q]); continue; }
+    if (k==7){ int depth = (rnd()%3==0) ? 130 : 70; for (int j=0;j<depth;j++) dispatch_suspend(Q[q]); for (int j=0;j<depth;j++) dispatch_resume(Q[q]); continue; }
     if (k==11){ item_t tmp={ .q=q }; dispatch_apply_f(1+rnd()%4, Q[q], &tmp, work_apply); continue; }
     int idx=atomic_fetch_add(&nitems,1); if(idx>=MAXIT) break; item_t *it=&items[idx]; it->q=q; it->thread=me;
     it->bar = (q==0) || k==1 || k==3 || k==9; it->sync = (k==2||k==3||k==8||k==9);
